@@ -105,7 +105,9 @@ def gen(d, rng, mode="rand", tail=True):
             parts.append(gen(fd, rng, mode, tail and i == len(d[1]) - 1))
         return "[" + ",".join(p[0] for p in parts) + "]", b"".join(p[1] for p in parts)
     if k == "opt":
-        if tail and (mode == "zero" or (mode == "rand" and rng.random() < 0.5)):
+        # an optional field may be absent; at the very end of a payload that is unambiguous.  Elsewhere ("zero" mode only) the
+        # value tuple with the field unset is still a value tuple the schema's types accept: it must round-trip as well
+        if (tail and (mode == "zero" or (mode == "rand" and rng.random() < 0.5))) or (not tail and mode == "zero"):
             return "a", b""
         return gen(d[1], rng, mode)
     raise ValueError(d)
